@@ -1438,3 +1438,72 @@ def validate_reference_get(run, n=40):
             if bad <= 2:
                 run.tie_broken("translator", "generated Reference_Data.get vs the real method", "extra data %s: %s" % (extra_py, [(q, r_, g_) for q, r_, g_ in zip(queries, real, gen) if r_ != g_][:4]))
     return len(cases)
+
+
+def validate_parse_params_section(run, files, n=60):
+    """the regenerated ConfigParser._parse_params_section against the real method on generated files (`files` as for validate_raw_parser): every section of the file,
+    sections that are absent, and sections made EMPTY; the line parser is a stand-in that returns (key, value) and refuses keys holding 'bad'"""
+    import atsim.potentials.config
+    from atsim.potentials.config import ConfigParser
+    from atsim.potentials.config._common import ConfigParserException
+    ok, log = build_gen()
+    if not ok:
+        run.tie_broken("translator", "Gen/Logic.lean (section parsing)", "the regenerated definitions (or their driver) do not build: " + log[-600:])
+        return 0
+    rng = run.rng
+    plans, reqs = [], []
+    for text, lines, secs in files[:n]:
+        names = list(secs.keys()) + ["Nope"]
+        # one section emptied, one key made unparsable
+        text2, lines2 = text, [list(l) for l in lines]
+        victim = rng.choice([s_ for s_ in secs if s_ not in ("Tabulation", "Variables")] or ["Tabulation"])
+        mode = rng.choice(["empty", "bad", "asis"])
+        if mode == "empty":
+            lines2 = [l for l in lines2 if not (l[0] == "kv" and _section_of(lines, l) == victim)]
+        elif mode == "bad":
+            done = False
+            for l in lines2:
+                if l[0] == "kv" and _section_of(lines, l) == victim and not done:
+                    l[1] = "bad" + l[1].strip()
+                    done = True
+        text2 = _render_lines(lines2)
+        for s_ in names:
+            if s_ == "Variables":
+                continue
+            plans.append((text2, s_))
+            reqs.append(dict(op="parse_params_section", lines=lines2, section=s_))
+    bad = 0
+    for (text2, s_), a in zip(plans, query_gen(reqs)):
+        def parse_line(k, v):
+            if "bad" in k:
+                raise ConfigParserException("bad line")
+            return [k, v]
+        try:
+            cp = ConfigParser(io.StringIO(text2))
+            real = cp._parse_params_section(s_, parse_line)
+        except ConfigParserException as e:
+            real = "missingSection" if "does not contain" in str(e) else "badLine"
+        run.traces += 1
+        run.dist["translator-validation/parse_params_section/%s" % (real if isinstance(real, str) else ("empty" if not real else "ok"))] += 1
+        if real != a:
+            bad += 1
+            if bad <= 2:
+                run.tie_broken("translator", "generated _parse_params_section vs the real method", "file %r section %r: real %s generated %s" % (text2[:300], s_, str(real)[:200], str(a)[:200]))
+    return len(plans)
+
+
+def _section_of(lines, line):
+    cur = None
+    for l in lines:
+        if l[0] == "sec":
+            cur = l[1]
+        if l is line or l == line:
+            return cur
+    return cur
+
+
+def _render_lines(lines):
+    out = []
+    for l in lines:
+        out.append("[%s]" % l[1] if l[0] == "sec" else "%s : %s" % (l[1], l[2]))
+    return "\n".join(out) + "\n"
